@@ -169,6 +169,6 @@ class HoppingParams:
 		m = t2 + self.RNTABLE[rn_idx]
 		mp = m & self._pnm
 
-		s = mp if mp < ma_len else (mp + t3 & self._pnm) % ma_len
+		s = mp if mp < ma_len else (mp + (t3 & self._pnm)) % ma_len
 		mai = (s + self.maio) % ma_len
 		return self.ma[mai]
